@@ -35,7 +35,11 @@ Clauses(e) ==
       NothingRunsWhenOff |-> NothingRunsWhenOff(e.st, SetOf(e.run)),
       ComesBackUp        |-> e.st = ExpSt(e) => ComesBackUp(e.st, e.nic, SetOf(e.run), SN(e), SR(e)),
       NoTrafficUnlessOn  |-> (e.ev \in {"FrameIn", "TryEmit"} /\ st # "ON") => (e.acc = 0 /\ e.emit = 0),
-      QuietUnlessOn      |-> (e.ev \in {"FrameIn", "TryEmit"} /\ st # "ON") => (e.nic = nic /\ SetOf(e.run) = run)
+      QuietUnlessOn      |-> (e.ev \in {"FrameIn", "TryEmit"} /\ st # "ON") => (e.nic = nic /\ SetOf(e.run) = run),
+      \* a tick that neither starts nor ends with the node ON does no software work: no timed operation (restart,
+      \* install, fix, scan, restore - their counters summed in prog0 / prog around the tick) advances, nothing starts
+      NoWorkUnlessOn     |-> (e.ev = "Tick" /\ st # "ON" /\ ExpSt(e) # "ON" /\ "prog" \in DOMAIN e)
+                                => (e.prog = e.prog0 /\ SetOf(e.run) \subseteq run)
     ]
 Failing(e) == {c \in DOMAIN Clauses(e) : ~Clauses(e)[c]}
 
